@@ -26,6 +26,10 @@ CLAUSES = (
 def run(chk: Check) -> None:
     vectors = runspace.enumerate_vectors(chk)
     sample = runspace.sample_covering(chk, vectors, chk.pick(220, 2400))
+    # a manifest that is itself a Python source with a trigger: dependency update and source rewrite hit the same file
+    both = [v for v in vectors if v["manifest"] == "setuppy-trigger" and v["layout"] in ("lf", "crlf") and not v["dryRun"] and v["workers"] == 1
+            and "pixee:python/use-set-literal" in v["queue"]]
+    sample += [v for v in both if v not in sample][: chk.pick(24, 200)]
     scenarios = [runspace.scenario_for(v, f"C03-{i}") for i, v in enumerate(sample)]
     for scn, res, verdicts in runspace.run_and_validate(chk, scenarios):
         v = scn["_v"]
